@@ -2,8 +2,11 @@
 (* Model for C13: one state per case.  Scenario-id cases are initial states; a     *)
 (* solution case starts with one (model, type, cost) triple and Extend appends     *)
 (* further triples (cooperative solutions) up to MaxList.                          *)
+(* History dimension: SetField assigns one public field of an id another value of  *)
+(* the scope (one step; the object was printed before the assignment).             *)
 EXTENDS BenchmarkId
 CONSTANTS Countries, MapNames, MapIds, Configs, MaxList, GenMode,
+          SetAll,               \* TRUE: SetField from every id of the scope; FALSE: from the ids generation executes
           DEV_SpellingInEq      \* deviation of the shipped code: == compares the int / list spelling of the prediction ids
 
 VARIABLES c
@@ -50,10 +53,34 @@ Init == \/ c \in IdCases
 Extend == /\ c.kind = "sol" /\ Len(c.vs) < c.lim /\ Len(c.vs) < MaxList
           /\ \E t \in Triples : /\ GenMode => NonReps(Append(c.vs, t)) <= 1
                                 /\ c' = [c EXCEPT !.vs = Append(@, t)]
-Next == Extend
+(* values a field can be assigned; for the prediction ids also how the value is spelled *)
+SetValues(fld) ==
+  CASE fld = "coop"    -> {[v |-> x, pk |-> ""] : x \in {0, 1}}
+    [] fld = "country" -> {[v |-> x, pk |-> ""] : x \in Countries}
+    [] fld = "map"     -> {[v |-> Word(x), pk |-> ""] : x \in MapNames}
+    [] fld = "map_id"  -> {[v |-> x, pk |-> ""] : x \in MapIds}
+    [] fld = "config"  -> {[v |-> x, pk |-> ""] : x \in ConfigChoices}
+    [] fld = "beh"     -> {[v |-> x, pk |-> ""] : x \in Behaviours \cup {"None"}}
+    [] fld = "pred"    -> {[v |-> p.pred, pk |-> p.pk] : p \in PredChoices}
+    [] fld = "ver"     -> {[v |-> x, pk |-> ""] : x \in Versions}
+(* generation executes the assignments on the ids of one map (all shapes of configuration / behaviour / predictions) *)
+GenBase(f) == f.map = Word("Test") /\ f.map_id = 1 /\ f.country \in {"ZAM", "DEU"}
+(* b = the id the object is after the assignment (differs from the normalised f in the one field);
+   bpk = how the constructor is handed b's prediction ids when the value is fetched from a constructed b *)
+SetField ==
+  /\ c.kind = "id" /\ (GenMode \/ ~SetAll => GenBase(c.f))
+  /\ \E fld \in FieldNames : \E x \in SetValues(fld) :
+       LET na == Normalize(c.f)
+           b  == [na EXCEPT ![fld] = x.v]
+       IN /\ x.v # na[fld] /\ Normalize(b) = b /\ ValidSet(c.f, fld, b)
+          /\ c' = [kind |-> "set", pk |-> c.pk, f |-> c.f, fld |-> fld, b |-> b,
+                   bpk |-> IF fld = "pred" THEN x.pk
+                           ELSE IF b.pred = <<>> THEN "none" ELSE IF Len(b.pred) = 1 THEN "int" ELSE "list"]
+Next == Extend \/ SetField
 Spec == Init /\ [][Next]_vars
 
-LawValid      == IF c.kind = "id" THEN Valid(c.f) ELSE ValidSol(SolOf(c))
+LawValid      == CASE c.kind = "id" -> Valid(c.f) [] c.kind = "sol" -> ValidSol(SolOf(c))
+                   [] c.kind = "set" -> ValidSet(c.f, c.fld, c.b)
 LawNormal     == c.kind = "id" => NormalLaw(c.f)
 LawGrammar    == c.kind = "id" => GrammarLaw(c.f) /\ GrammarTight(c.f)
 LawParse      == c.kind = "id" => ParseLaw(c.f)
@@ -62,6 +89,12 @@ LawSolGrammar == c.kind = "sol" => SolGrammarLaw(SolOf(c))
 LawSolParse   == c.kind = "sol" => SolParseLaw(SolOf(c))
 LawSolReprint == c.kind = "sol" => SolReprintLaw(SolOf(c))
 LawSolAll     == c.kind = "sol" => SolLaws(SolOf(c))
+(* after an assignment the object is the id After(...) and nothing else: its text is PrintId of that record (the
+   specification has no cache), it conforms to the grammar, parses back to itself and reprints identically *)
+LawSetPrint   == c.kind = "set" => LET a == After(c.f, c.fld, c.b)
+                                   IN /\ a = c.b /\ a[c.fld] # Normalize(c.f)[c.fld] /\ PrintId(a) = Render(a)
+                                      /\ (c.fld \notin {"ver"} => PrintId(a) # PrintId(c.f))
+                                      /\ GrammarLaw(a) /\ ParseLaw(a) /\ ReprintLaw(a)
 (* the int / list spelling of one prediction id is not part of the abstract id: both spellings print alike *)
 LawSpelling   == [][c'.f = c.f]_vars
 
